@@ -119,6 +119,11 @@ pub struct PermCase {
     pub prog: Program,
     /// None: all permutations when the registry has <= `full_up_to` entries, generators otherwise
     pub perm: Option<Vec<u32>>,
+    /// paths that carry a recursive derive `::r::D<i>` and attribute `#[r<i>]` (several roots whose closures
+    /// overlap: which root is walked first must not matter). The restriction clause is skipped for these
+    /// settings (a root that is not retained takes its registrations with it).
+    #[serde(default)]
+    pub rec: Vec<String>,
 }
 
 fn item_tokens(module: &str) -> BTreeMap<String, String> {
@@ -166,13 +171,17 @@ impl KindString for crate::interp::Item {
 pub fn check_case(c: &PermCase, full_up_to: usize, ctx: &mut Ctx) {
     let reg = elaborate(&c.prog).registry;
     let n = reg.types.len();
-    let sp = spec();
+    let mut sp = spec();
+    for (i, p) in c.rec.iter().enumerate() {
+        sp.derives_for.push((p.clone(), vec![format!("::r::D{i}")], true));
+        sp.attrs_for.push((p.clone(), vec![format!("#[r{i}]")], true));
+    }
     let ident: Vec<u32> = (0..n as u32).collect();
     let canon = observe(&reg, &ident, &sp);
     ctx.exec(1);
     ctx.outcome(&canon.module);
     let size = c.prog.to_source().len();
-    let replay = |perm: &[u32]| json!({"check": "C17", "case": {"prog": serde_json::to_value(&c.prog).unwrap(), "perm": perm}, "source": c.prog.to_source()});
+    let replay = |perm: &[u32]| json!({"check": "C17", "case": {"prog": serde_json::to_value(&c.prog).unwrap(), "perm": perm, "rec": c.rec}, "source": c.prog.to_source()});
     let check_perm = |perm: &[u32], ctx: &mut Ctx| {
         ctx.exec(1);
         let preg = permute(&reg, perm);
@@ -258,7 +267,7 @@ pub fn check_case(c: &PermCase, full_up_to: usize, ctx: &mut Ctx) {
         }
     }
     // restriction to the closure of every single id (and pairs for small registries)
-    if c.perm.is_none() {
+    if c.perm.is_none() && c.rec.is_empty() {
         let canon_items = item_tokens(&canon.module);
         let mut sets: Vec<Vec<u32>> = (0..n as u32).map(|i| vec![i]).collect();
         if n <= 8 {
@@ -349,6 +358,7 @@ pub fn run(tier: &str, seed: u64) -> i32 {
             cases.push(PermCase {
                 prog: arms_program(&s.expr, pos, false, "N"),
                 perm: None,
+                rec: vec![],
             });
         }
     }
@@ -370,7 +380,7 @@ pub fn run(tier: &str, seed: u64) -> i32 {
             continue;
         }
         // at least two instantiations or unused parameters are what order could influence
-        cases.push(PermCase { prog, perm: None });
+        cases.push(PermCase { prog, perm: None, rec: vec![] });
     }
     // D-family (twins carry equal docs by construction)
     let f = DFamily {
@@ -386,6 +396,7 @@ pub fn run(tier: &str, seed: u64) -> i32 {
         cases.push(PermCase {
             prog: s.program(),
             perm: None,
+            rec: vec![],
         });
     }
     // D-graph
@@ -395,7 +406,18 @@ pub fn run(tier: &str, seed: u64) -> i32 {
         cases.push(PermCase {
             prog: s.program(),
             perm: None,
+            rec: vec![],
         });
+        // two recursive roots (every pair of nodes): their closures overlap in the shared descendants
+        for i in 0..s.nodes.len() {
+            for j in (i + 1)..s.nodes.len() {
+                cases.push(PermCase {
+                    prog: s.program(),
+                    perm: None,
+                    rec: vec![s.path_of(i), s.path_of(j)],
+                });
+            }
+        }
     }
     if std::env::var("VERIF_TIMING").is_ok() {
         eprintln!("  cases built: {} in {:.1}s", cases.len(), report.started.elapsed().as_secs_f64());
@@ -470,7 +492,8 @@ pub fn run(tier: &str, seed: u64) -> i32 {
 pub fn replay(v: &serde_json::Value) -> Result<Vec<Violation>, String> {
     let prog: Program = serde_json::from_value(v["case"]["prog"].clone()).map_err(|e| e.to_string())?;
     let perm: Option<Vec<u32>> = serde_json::from_value(v["case"]["perm"].clone()).unwrap_or(None);
+    let rec: Vec<String> = serde_json::from_value(v["case"]["rec"].clone()).unwrap_or_default();
     let mut ctx = Ctx::default();
-    check_case(&PermCase { prog, perm }, 6, &mut ctx);
+    check_case(&PermCase { prog, perm, rec }, 6, &mut ctx);
     Ok(ctx.violations)
 }
